@@ -398,7 +398,11 @@ def _build(r):
     if k == "bad":
         t = r["t"]
         return {"object": object, "dict": lambda: {"a": 1}, "bytes": lambda: b"xy", "set": lambda: {1, 2},
-                "range": lambda: range(2), "complex": lambda: 1j, "type": lambda: int}[t]()
+                "range": lambda: range(2), "complex": lambda: 1j, "type": lambda: int,
+                # numbers that are neither int nor float are not child values
+                "fraction": lambda: __import__("fractions").Fraction(1, 2), "decimal": lambda: __import__("decimal").Decimal("1.5"),
+                "bytearray": lambda: bytearray(b"ab"), "memoryview": lambda: memoryview(b"ab"), "frozenset": lambda: frozenset([1]),
+                "function": lambda: (lambda: "x"), "exception": lambda: ValueError("v"), "module": lambda: __import__("json")}[t]()
     raise ValueError(k)
 
 
